@@ -17,6 +17,8 @@ claimed = {
  "C10": e1("After every API call of every explored execution the virtual timer of each undecided validator is compared with the node's (height, view); nested view changes during cached-payload replay are reached through the silent-primary bases and replay-order deviations.", "4 C10"),
  "C06": dict(level="exploration", engine="E3", technique="exhaustive enumeration of the finite argument domain on the real Context (small-scope model checking of a pure function)", text="F, M, GetPrimaryIndex are pure functions of (N, height, view); the whole domain N=1..65535 x 256 views x boundary heights is enumerated (thorough) and compared with independent big-integer arithmetic, so the claim is exhaustive for the stated domain rather than sampled.", note="Trusted: the independent arithmetic in the checker; for N above the Start threshold the Context is populated through exported fields (the functions read nothing else).", design="4 C06"),
  "C15": dict(level="exploration", engine="E3", technique="exhaustive enumeration of a finite input grid, each point one real Start/OnReceive/Reset/OnTimeout drive of the implementation", text="The full cross product of increments, previous timestamps, clock readings, pool lists, heights, views, N, anti-MEV and dynamic-block-time settings is driven through the real primary code path and every broadcast proposal is compared with the constructor arguments, the Context and the primary's own block.", note="Trusted: harness application (pool, virtual clock); reading of 'whenever that is larger' documented in evidence assumptions.", design="4 C15"),
+ "C19": dict(level="exploration", engine="E6", technique="small-scope exhaustive enumeration (all payloads/blocks over tiny field domains, all pairs, all single-byte corruptions, all byte strings to a length) on the real reference codec/crypto/merkle code", text="Hash binding, codec round trip, decoder robustness, signature and Merkle properties are universally quantified over inputs; within the small scope every input is enumerated and compared pairwise / against the original, so nothing is sampled.", note="Trusted: Go gob/ecdsa; content keys built by the checker; one process (gob type ids). Known finding D8 listed in known_findings.json.", design="4 C19"),
+ "C20": dict(level="model_checking", engine="E7", technique="TLC explicit-state model checking (complete BFS) of each shipped TLA+ spec, constants and fault sets enumerated, ASSUME-admitted cells only", text="The property is about the TLA+ models themselves; TLC enumerates every reachable state of each (spec, MaxView, RMFault, RMDead) cell read from the working tree and checks exactly the three named invariants. Quick = 7 small cells + ASSUME probes for all five specs; thorough = the whole 5x2x25 matrix with a per-cell cap (capped cells are reported with the completed depth).", note="Trusted: TLC 1.8.0; cfg generation from the shipped .launch files. traces_validated_against_impl=0 by design (models are not claimed to follow the Go code).", design="4 C20"),
  "C18": dict(level="exploration", engine="E5", technique="exhaustive enumeration of all operation sequences up to a length bound against the real timer under a fake runtime clock (testing/synctest), step-by-step comparison with a reference model", text="All Reset/Extend/Sleep/Poll sequences up to length 7 (quick) / 8 (thorough) are executed on the real timer.Timer in synctest bubbles where every instant is exact; a 30-line reference model decides when a value must / must not be receivable.", note="Trusted: go1.26.8 testing/synctest fake clock; reference model in e5/timermc.", design="4 C18"),
 }
 todo_reason = "check not implemented yet in this revision (see DESIGN.md section 4 for the planned engine)"
@@ -47,6 +49,8 @@ m = {
  "engines": [
    {"name":"E1","path":"/verif/mc","serves_properties":[c for c in claimed if claimed[c]['engine']=="E1"],"kind_free_text":E1},
    {"name":"E3","path":"/verif/mc/checks_e3.go","serves_properties":[c for c in claimed if claimed[c]['engine']=="E3"],"kind_free_text":"finite-domain enumerators driving the real library"},
+   {"name":"E6","path":"/verif/e5/codecmc","serves_properties":["C19"],"kind_free_text":"small-scope codec/crypto/merkle enumerator (Go test binary, one process)"},
+   {"name":"E7","path":"/verif/e7/tlc_matrix.py","serves_properties":["C20"],"kind_free_text":"TLC 1.8.0 matrix driver"},
    {"name":"E5","path":"/verif/e5","serves_properties":[c for c in claimed if claimed[c]['engine']=="E5"],"kind_free_text":"go1.26.8 testing/synctest drivers (fake runtime clock) for the real timer and the real simulation"},
  ],
  "checks": checks,
